@@ -17,12 +17,26 @@ except BaseException as e:
     print(json.dumps(out))
     sys.exit(0)
 
-mods = {k: v for k, v in sys.modules.items() if (k == 'eolib' or k.startswith('eolib.')) and isinstance(v, types.ModuleType)}
-# 1. every documented module (no underscore component) is reachable along its dotted path and is THE module
-for path, m in sorted(mods.items()):
+import os
+# the namespaces as `import <first>; import eolib` left them (nothing below may repair what those imports did not bind)
+snapshot = {k: dict(vars(v)) for k, v in sys.modules.items() if (k == 'eolib' or k.startswith('eolib.')) and isinstance(v, types.ModuleType)}
+# the documented modules are the ones ON DISK (not the ones that happened to get imported): every .py file / package directory under
+# src/eolib without an underscore-prefixed component
+documented = set()
+base = os.path.join(root, 'src')
+for dp, dns, fns in os.walk(os.path.join(base, 'eolib')):
+    dns[:] = sorted(d for d in dns if d != '__pycache__')
+    rel = os.path.relpath(dp, base).replace(os.sep, '.')
+    if any(f.endswith('.py') for f in fns) or dns:
+        documented.add(rel)
+    for f in fns:
+        if f.endswith('.py') and f != '__init__.py':
+            documented.add(rel + '.' + f[:-3])
+documented = sorted(p for p in documented if not any(c.startswith('_') for c in p.split('.')))
+# 1. every documented module is reachable by attribute access along its dotted path and is THE module the import system resolves
+mods = {}
+for path in documented:
     parts = path.split('.')
-    if any(p.startswith('_') for p in parts):
-        continue
     o = eolib
     ok = True
     for p in parts[1:]:
@@ -31,6 +45,12 @@ for path, m in sorted(mods.items()):
             out['path_mismatches'].append(dict(path=path, why=f"attribute {p} missing"))
             break
         o = getattr(o, p)
+    try:
+        m = importlib.import_module(path)
+    except BaseException as e:
+        out['errors'].append(f"import {path}: {type(e).__name__}: {e}")
+        continue
+    mods[path] = m
     if ok and o is not m:
         out['path_mismatches'].append(dict(path=path, resolves_to=getattr(o, '__name__', repr(o))[:80]))
 # 2. every public name a static subpackage's module defines is the same object in its home package and at the top level
@@ -58,12 +78,11 @@ for path, m in sorted(mods.items()):
     parts = path.split('.')
     if any(p.startswith('_') for p in parts) or hasattr(m, '__path__'):
         continue                   # leaf modules of documented packages only
-    pkg = mods.get('.'.join(parts[:-1]))
     for n in public_defs(m):
         obj = getattr(m, n)
-        for where, holder in (('.'.join(parts[:-1]), pkg), ('eolib', eolib)):
+        for where in ('.'.join(parts[:-1]), 'eolib'):
             out['names_checked'].append([where, path, n])
-            got = getattr(holder, n, None)
+            got = snapshot.get(where, {}).get(n)
             if got is not obj:
                 out['name_mismatches'].append(dict(name=n, defined_in=path, looked_up_in=where, got=repr(got)[:80]))
 # 3. every generated class is exported, as one object, from its documented subpackage and from the top level
@@ -80,8 +99,7 @@ for d in declared:      # {'name', 'dir', 'module'}
     pub = 'eolib.protocol' + ('.' + d['dir'].replace('/', '.') if d['dir'] else '')
     for where in (pub, 'eolib'):
         out['names_checked'].append([where, gen_mod, d['name']])
-        holder = sys.modules.get(where)
-        got = getattr(holder, d['name'], None) if holder is not None else None
+        got = snapshot.get(where, {}).get(d['name'])
         if got is not cls:
             out['name_mismatches'].append(dict(name=d['name'], defined_in=gen_mod, looked_up_in=where, got=repr(got)[:80]))
 out['modules'] = sorted(mods)
